@@ -3,6 +3,7 @@ package main
 // hv check <property> --tier quick|thorough : the registered check command.
 
 import (
+	"golang.org/x/tools/go/ssa"
 	"encoding/json"
 	"flag"
 	"fmt"
@@ -104,6 +105,8 @@ type CheckResult struct {
 	Wall       float64
 	ContractSrc map[string]string
 	Lemmas     int
+	ImplNotes  []string
+	CalleeBase []string // how each callee contract used by this check is itself justified
 }
 
 // runCheck verifies every function under contract for prop in world w.
@@ -127,6 +130,51 @@ func runCheck(w *World, prop string, timeoutS int, confirm bool, known *KnownFil
 			}
 			jobs = append(jobs, job{rel, c})
 		}
+	}
+	type implJob struct {
+		rel string
+		c   *Contract
+		fn  *ssa.Function
+	}
+	var ijobs []implJob
+	for _, rel := range w.pkgOrder {
+		cf := w.contracts[rel]
+		if cf == nil {
+			continue
+		}
+		for _, key := range sortedKeys(cf.Funcs) {
+			c := cf.Funcs[key]
+			if !c.Abstract || !c.Impls || !hasProp(c.Props, prop) {
+				continue
+			}
+			impls, own, err := w.implementations(c)
+			if err != "" {
+				res.ToolErrors = append(res.ToolErrors, err)
+				continue
+			}
+			for _, o := range own {
+				res.ImplNotes = append(res.ImplNotes, "implementation of "+relOf(c.Pkg)+"."+c.Key+" with a contract of its own (refinement of the interface contract is not machine-checked): "+o)
+			}
+			if len(impls) == 0 {
+				res.ToolErrors = append(res.ToolErrors, "contract-mismatch: "+c.Key+" says `implementations` but no implementation without its own contract was found")
+			}
+			for _, im := range impls {
+				ipkg, ikey := contractKey(im)
+				cc := *c
+				cc.Pkg, cc.Key = ipkg, ikey
+				cc.Abstract, cc.Impls = false, false
+				cc.Aliases = append([]string{"self"}, c.ParamNames...)
+				ijobs = append(ijobs, implJob{relOf(ipkg), &cc, im})
+			}
+		}
+	}
+	for _, j := range ijobs {
+		rep := VerifyFunc(w, j.rel, j.c, j.fn)
+		for _, e := range rep.Errors {
+			res.ToolErrors = append(res.ToolErrors, rep.Func+": "+e)
+		}
+		res.Reports = append(res.Reports, rep)
+		res.Obls = append(res.Obls, rep.Obls...)
 	}
 	for _, j := range jobs {
 		fn := w.findFunc(j.rel, j.c.Key)
@@ -154,6 +202,7 @@ func runCheck(w *World, prop string, timeoutS int, confirm bool, known *KnownFil
 		res.Reports = append(res.Reports, rep)
 		res.Obls = append(res.Obls, keep...)
 	}
+	res.CalleeBase = calleeBase(w, prop, res.Reports)
 	// lemmas
 	for _, rel := range w.pkgOrder {
 		cf := w.contracts[rel]
@@ -495,6 +544,12 @@ func writeEvidence(verif, prop, tier string, seed int, res *CheckResult, muts []
 	for _, a := range propAssumptions[prop] {
 		assumptions[a] = true
 	}
+	for _, a := range res.CalleeBase {
+		assumptions[a] = true
+	}
+	for _, a := range res.ImplNotes {
+		assumptions[a] = true
+	}
 	tb := []string{"go/packages+go/types+go/ssa (x/tools v0.29.0) faithfully represent the compiled program", "hv SSA->SMT translation (self-tested by the must-fail corpus)",
 		"SMT solvers z3 5.1.0 / z3 4.8.12 / cvc5 1.0 are sound", "gomod axioms (Go % on non-negative operands)", "append/make/map builtin models"}
 	tb = append(tb, sortedKeys(trusted)...)
@@ -556,12 +611,10 @@ var globalAssumptions = []string{
 var propAssumptions = map[string][]string{
 	"C19": {
 		"scope (partial): Agent.activate/handleActivationRequest/handleActivation/handleDeactivation/handleActorTopology/addActivated/removeActivated/hasKindLocal/handleGetActive (by id)/memberJoin (topology)/memberLeave (purge)/Receive (dispatch), MemberSet.FilterByKind, Member.HasKind; cluster-wide convergence is the composition of these clauses with delivery and is not machine-checked",
-		"trusted contracts: Agent.bcast (one Bcast entry; its fan-out over the members is not verified), Engine.Spawn, Engine.Poison, Engine.BroadcastEvent, Member.PID; functype SelectMemberFunc pure",
 		"thread confinement of the agent's handlers; PID and Member objects immutable",
 	},
 	"C17": {
 		"scope (partial): Engine.send (remote branch), Remote.Send/Start/Stop, streamRouter.Receive/deliverStream/handleTerminateStream, streamWriter.Shutdown/PID; nothing about TCP, drpc, dialing, retry timing or cross-node ordering is decided",
-		"trusted contracts: newStreamWriter, Engine.Spawn, DRPCRegisterRemote; library calls (net, tls, drpcmux, drpcserver, sync.WaitGroup) have no effect on repository heap and do not panic",
 		"router, writer, Remote fields and the router's address table are not written by code reached through Engine.SpawnProc/Send",
 		"no interleaving of concurrent Remote.Start/Stop calls is considered (each runs to completion)",
 	},
@@ -575,17 +628,15 @@ var propAssumptions = map[string][]string{
 	"C18": {
 		"scope: NewMemberSet, MemberSet.Except/Slice, Agent.handleMembers/memberJoin/memberLeave/rebuildKinds (with MemberSet.ForEach and its closure inlined)/removeActivated, Agent.Receive restricted to *Members and getMembers; Cluster.Members/HasKind (request/response) and the other agent cases are outside this check",
 		"thread confinement of the agent's handlers (C02); Member and PID objects are immutable",
-		"trusted contracts: Engine.BroadcastEvent (one Broadcast entry), Member.PID (fresh PID); Engine.Send per its contract (C01/C09)",
 		"map iteration model: any not yet visited key of the current key set; the visited count equals len(m) at the end while the key set is unchanged",
 	},
 	"C08": {
-		"scope: SafeMap.New/Set/Get/Delete/Len (lock-invariant mode), Context.SpawnChild/Parent/Child, process.cleanup, process.PID; SafeMap.ForEach and Context.Children are not verified (Children is a trusted contract: fresh slice)",
+		"scope: SafeMap.New/Set/Get/Delete/Len (lock-invariant mode), Context.SpawnChild/Parent/Child, process.cleanup, process.PID; SafeMap.ForEach and Context.Children are not verified",
 		"transitivity over the tree is induction on depth with cleanup's contract as hypothesis for each child; the child's poison context is done only after its own cleanup (C07); not machine-checked",
-		"trusted contracts: newProcess, DefaultOpts, newFuncReceiver, Engine.Poison, Context.Children; functype OptFunc (user code may write the Opts it is handed)",
 		"thread confinement of cleanup and of SpawnChild (they run on the owning actor's worker: C02)",
 	},
 	"C02": {
-		"scope: Inbox.Send/schedule/process/run/Start/Stop and goscheduler.Schedule in global-invariant mode; process.Start/Invoke/tryRestart/cleanup for 'runs on the owner thread'; Engine.Spawn/newProcess/NewInbox are not under contract (the first Start is assumed to run on the thread that created the inbox)",
+		"scope: Inbox.Send/schedule/process/run/Start/Stop and goscheduler.Schedule in global-invariant mode; process.Start/Invoke/tryRestart/cleanup for 'runs on the owner thread'; Engine.Spawn/SpawnProc/newProcess/NewInbox carry the start permission from the constructor to the first Start (ghost startPerm)",
 		"thread-modular reasoning: before every atomic step all shared state of the inbox is arbitrary subject to the invariant and this thread's stable clauses (each stable clause is re-proved after every step of the thread that relies on it)",
 		"sync/atomic: operations on procStatus are totally ordered and publish prior writes (Go memory model); the plain write of in.proc happens between two such operations of the starter",
 		"the step from 'at most one worker token and every Invoke under it' to 'Receive invocations never overlap in time' is a meta-argument (token passing through one atomic word), not a machine-checked obligation",
@@ -603,7 +654,6 @@ var propAssumptions = map[string][]string{
 		"functype Producer: returns a non-nil receiver, does not panic; functype MiddlewareFunc: pure, returns a non-nil function named wrap(mw, next)",
 		"envelopes never carry Initialized/Started/Stopped values as user messages",
 		"abstract contracts: Inboxer.Start/Stop/Send, Processer.Send/Start/Invoke/PID, Scheduler.Schedule/Throughput, Remoter.Send, context.CancelFunc (each appends exactly one event to the effect log, no other heap effect)",
-		"trusted contracts: Engine.BroadcastEvent (one Broadcast entry; body checked separately as BroadcastEvent!impl), Engine.Poison (one PoisonSent entry; body is a one-line call of sendPoisonPill), Context.Children (fresh slice), cleanTrace (pure), NewResponse, SafeMap.Len/Delete",
 		"recursive ghost definition mwchain is well-founded (recursion on n - i); instances are added only by explicit unfold statements",
 	},
 	"C04": {
@@ -614,7 +664,6 @@ var propAssumptions = map[string][]string{
 		"functype Producer: returns a non-nil receiver, does not panic; functype MiddlewareFunc: pure, returns a non-nil function named wrap(mw, next)",
 		"envelopes never carry Initialized/Started/Stopped values as user messages",
 		"abstract contracts: Inboxer.Start/Stop/Send, Processer.Send/Start/Invoke/PID, Scheduler.Schedule/Throughput, Remoter.Send, context.CancelFunc (each appends exactly one event to the effect log, no other heap effect)",
-		"trusted contracts: Engine.BroadcastEvent (one Broadcast entry; body checked separately as BroadcastEvent!impl), Engine.Poison (one PoisonSent entry; body is a one-line call of sendPoisonPill), Context.Children (fresh slice), cleanTrace (pure), NewResponse, SafeMap.Len/Delete",
 		"recursive ghost definition mwchain is well-founded (recursion on n - i); instances are added only by explicit unfold statements",
 	},
 	"C05": {
@@ -625,7 +674,6 @@ var propAssumptions = map[string][]string{
 		"functype Producer: returns a non-nil receiver, does not panic; functype MiddlewareFunc: pure, returns a non-nil function named wrap(mw, next)",
 		"envelopes never carry Initialized/Started/Stopped values as user messages",
 		"abstract contracts: Inboxer.Start/Stop/Send, Processer.Send/Start/Invoke/PID, Scheduler.Schedule/Throughput, Remoter.Send, context.CancelFunc (each appends exactly one event to the effect log, no other heap effect)",
-		"trusted contracts: Engine.BroadcastEvent (one Broadcast entry; body checked separately as BroadcastEvent!impl), Engine.Poison (one PoisonSent entry; body is a one-line call of sendPoisonPill), Context.Children (fresh slice), cleanTrace (pure), NewResponse, SafeMap.Len/Delete",
 		"recursive ghost definition mwchain is well-founded (recursion on n - i); instances are added only by explicit unfold statements",
 	},
 	"C06": {
@@ -636,11 +684,10 @@ var propAssumptions = map[string][]string{
 		"functype Producer: returns a non-nil receiver, does not panic; functype MiddlewareFunc: pure, returns a non-nil function named wrap(mw, next)",
 		"envelopes never carry Initialized/Started/Stopped values as user messages",
 		"abstract contracts: Inboxer.Start/Stop/Send, Processer.Send/Start/Invoke/PID, Scheduler.Schedule/Throughput, Remoter.Send, context.CancelFunc (each appends exactly one event to the effect log, no other heap effect)",
-		"trusted contracts: Engine.BroadcastEvent (one Broadcast entry; body checked separately as BroadcastEvent!impl), Engine.Poison (one PoisonSent entry; body is a one-line call of sendPoisonPill), Context.Children (fresh slice), cleanTrace (pure), NewResponse, SafeMap.Len/Delete",
 		"recursive ghost definition mwchain is well-founded (recursion on n - i); instances are added only by explicit unfold statements",
 	},
 	"C07": {
-		"scope: Engine.sendPoisonPill/Stop, process.Invoke/invokeMsg/cleanup; Engine.Poison/PoisonCtx are one-line wrappers of sendPoisonPill (Poison trusted)",
+		"scope: Engine.sendPoisonPill/Stop, process.Invoke/invokeMsg/cleanup; Engine.Poison (through Poison!impl) and PoisonCtx, the one-line wrappers of sendPoisonPill",
 		"context.WithCancel model: returns a fresh non-nil context and its cancel func ctxcancel(ctx)",
 		"thread confinement: Start/Invoke/invokeMsg/tryRestart/cleanup run on the inbox worker or (first Start) on the spawning goroutine, one at a time (C02; not decided by this check)",
 		"user code (Receive, Producer, middleware, handlers reached through them) cannot write the engine's private fields (process, Context, Inbox, Registry, Engine, PID objects, envelope slices, the middleware slice) except through calls this proof does not see; nested engine activity of user code on other actors is not part of this function's effect log",
@@ -648,7 +695,6 @@ var propAssumptions = map[string][]string{
 		"functype Producer: returns a non-nil receiver, does not panic; functype MiddlewareFunc: pure, returns a non-nil function named wrap(mw, next)",
 		"envelopes never carry Initialized/Started/Stopped values as user messages",
 		"abstract contracts: Inboxer.Start/Stop/Send, Processer.Send/Start/Invoke/PID, Scheduler.Schedule/Throughput, Remoter.Send, context.CancelFunc (each appends exactly one event to the effect log, no other heap effect)",
-		"trusted contracts: Engine.BroadcastEvent (one Broadcast entry; body checked separately as BroadcastEvent!impl), Engine.Poison (one PoisonSent entry; body is a one-line call of sendPoisonPill), Context.Children (fresh slice), cleanTrace (pure), NewResponse, SafeMap.Len/Delete",
 		"recursive ghost definition mwchain is well-founded (recursion on n - i); instances are added only by explicit unfold statements",
 	},
 	"C09": {
@@ -659,7 +705,6 @@ var propAssumptions = map[string][]string{
 		"functype Producer: returns a non-nil receiver, does not panic; functype MiddlewareFunc: pure, returns a non-nil function named wrap(mw, next)",
 		"envelopes never carry Initialized/Started/Stopped values as user messages",
 		"abstract contracts: Inboxer.Start/Stop/Send, Processer.Send/Start/Invoke/PID, Scheduler.Schedule/Throughput, Remoter.Send, context.CancelFunc (each appends exactly one event to the effect log, no other heap effect)",
-		"trusted contracts: Engine.BroadcastEvent (one Broadcast entry; body checked separately as BroadcastEvent!impl), Engine.Poison (one PoisonSent entry; body is a one-line call of sendPoisonPill), Context.Children (fresh slice), cleanTrace (pure), NewResponse, SafeMap.Len/Delete",
 		"recursive ghost definition mwchain is well-founded (recursion on n - i); instances are added only by explicit unfold statements",
 	},
 	"C11": {
@@ -671,7 +716,6 @@ var propAssumptions = map[string][]string{
 		"functype Producer: returns a non-nil receiver, does not panic; functype MiddlewareFunc: pure, returns a non-nil function named wrap(mw, next)",
 		"envelopes never carry Initialized/Started/Stopped values as user messages",
 		"abstract contracts: Inboxer.Start/Stop/Send, Processer.Send/Start/Invoke/PID, Scheduler.Schedule/Throughput, Remoter.Send, context.CancelFunc (each appends exactly one event to the effect log, no other heap effect)",
-		"trusted contracts: Engine.BroadcastEvent (one Broadcast entry; body checked separately as BroadcastEvent!impl), Engine.Poison (one PoisonSent entry; body is a one-line call of sendPoisonPill), Context.Children (fresh slice), cleanTrace (pure), NewResponse, SafeMap.Len/Delete",
 		"recursive ghost definition mwchain is well-founded (recursion on n - i); instances are added only by explicit unfold statements",
 	},
 	"C12": {
@@ -683,7 +727,6 @@ var propAssumptions = map[string][]string{
 		"functype Producer: returns a non-nil receiver, does not panic; functype MiddlewareFunc: pure, returns a non-nil function named wrap(mw, next)",
 		"envelopes never carry Initialized/Started/Stopped values as user messages",
 		"abstract contracts: Inboxer.Start/Stop/Send, Processer.Send/Start/Invoke/PID, Scheduler.Schedule/Throughput, Remoter.Send, context.CancelFunc (each appends exactly one event to the effect log, no other heap effect)",
-		"trusted contracts: Engine.BroadcastEvent (one Broadcast entry; body checked separately as BroadcastEvent!impl), Engine.Poison (one PoisonSent entry; body is a one-line call of sendPoisonPill), Context.Children (fresh slice), cleanTrace (pure), NewResponse, SafeMap.Len/Delete",
 		"recursive ghost definition mwchain is well-founded (recursion on n - i); instances are added only by explicit unfold statements",
 	},
 	"C13": {
@@ -694,27 +737,58 @@ var propAssumptions = map[string][]string{
 		"functype Producer: returns a non-nil receiver, does not panic; functype MiddlewareFunc: pure, returns a non-nil function named wrap(mw, next)",
 		"envelopes never carry Initialized/Started/Stopped values as user messages",
 		"abstract contracts: Inboxer.Start/Stop/Send, Processer.Send/Start/Invoke/PID, Scheduler.Schedule/Throughput, Remoter.Send, context.CancelFunc (each appends exactly one event to the effect log, no other heap effect)",
-		"trusted contracts: Engine.BroadcastEvent (one Broadcast entry; body checked separately as BroadcastEvent!impl), Engine.Poison (one PoisonSent entry; body is a one-line call of sendPoisonPill), Context.Children (fresh slice), cleanTrace (pure), NewResponse, SafeMap.Len/Delete",
 		"recursive ghost definition mwchain is well-founded (recursion on n - i); instances are added only by explicit unfold statements",
 	},
 	"C10": {
-		"scope: Registry.add/Remove/get/getByID/GetPID, Context.GetPID, Engine.SpawnProc; Engine.Spawn/newProcess and the callers of Remove are outside this check",
+		"scope: Registry.add/Remove/get/getByID/GetPID, Context.GetPID, Engine.Spawn/SpawnProc, process.cleanup (the caller of Remove)",
 		"sync.RWMutex: mutual exclusion and a total order of critical sections; the protected map is havoced at every Lock/RLock and at every call of a locked Registry method, so nothing is assumed about other threads beyond the lock invariant",
 		"abstract contract of Processer.PID(): a stable function of the processer value (pidof), non-nil",
 		"abstract contract of Processer.Start(): returns normally; leaves engine-private fields (Registry, process, Context, Inbox, Engine, PID objects) as they are except through calls this proof does not see",
-		"trusted contract of Engine.BroadcastEvent: publishes exactly its argument (one Broadcast entry in the effect log)",
 	},
 	"C16": {
-		"scope: only streamReader.Receive is under contract; the generated decoder (Envelope/Message.UnmarshalVT), the protobuf library behind Deserialize, drpc's handling of the returned error and Engine.SendLocal are outside the proof",
+		"scope: streamReader.Receive; the generated decoder (Envelope/Message.UnmarshalVT), the protobuf library behind Deserialize and drpc's handling of the returned error are outside the proof",
 		"abstract contract assumed of DRPCRemote_ReceiveStream.Recv: on success the envelope and the elements of Messages are non-nil (nothing is assumed about indices or table lengths)",
 		"abstract contract assumed of Deserializer.Deserialize: returns normally; its result is named deser(data, tname)",
-		"trusted contract of (*Engine).SendLocal: returns normally and writes nothing streamReader.Receive reads again",
 		"int32 -> int conversion treated as exact (true on every Go platform)",
 	},
 	"C20": {
-		"scope: MemberSet.GetByHost/Contains/Add/Remove and SelfManaged.removeMember/addMembers are under contract; the message dispatch in SelfManaged.Receive, handleEventStream, discovery and the pinger are outside the proof",
-		"trusted contract of (*SelfManaged).sendMembersToAgent: returns normally and does not change the member set",
+		"scope: MemberSet.GetByHost/Contains/Add/Remove, SelfManaged.removeMember/addMembers/sendMembersToAgent and SelfManaged.Receive restricted to its three membership messages; handleEventStream, discovery (mDNS) and the pinger are outside the proof",
 	},
+}
+
+// calleeBase lists, for every callee contract some proof of this check relied
+// on, what stands behind that contract: nothing (trusted / abstract), a second
+// contract checked against the body (F!impl), or the obligations of another
+// property's check.
+func calleeBase(w *World, prop string, reps []*FuncReport) []string {
+	all := map[string]*Contract{}
+	for _, cf := range w.contracts {
+		for _, c := range cf.Funcs {
+			all[c.Pkg+"."+c.Key] = c
+		}
+	}
+	short := func(n string) string { return strings.TrimPrefix(n, "github.com/anthdm/hollywood/") }
+	out := map[string]bool{}
+	for _, r := range reps {
+		for _, u := range r.Used {
+			c := all[u]
+			if c == nil {
+				out["function-type contract (values of this type are user code or closures; assumed to satisfy it): "+short(u)] = true
+				continue
+			}
+			switch {
+			case c.Trusted && all[u+"!impl"] != nil:
+				out["trusted contract at call sites, body checked against a second contract ("+short(u)+"!impl): "+short(u)] = true
+			case c.Trusted:
+				out["trusted contract (body NOT verified): "+short(u)] = true
+			case c.Abstract:
+				out["abstract contract (interface method or function value; its implementations are assumed to satisfy it): "+short(u)] = true
+			case !hasProp(c.Props, prop):
+				out["callee contract discharged by the check(s) of "+strings.Join(c.Props, ",")+", not by this check: "+short(u)] = true
+			}
+		}
+	}
+	return sortedKeys(out)
 }
 
 func sortStrings(s []string) []string { sort.Strings(s); return s }
